@@ -510,21 +510,33 @@ PROPS["C06"] = {
 
 # ------------------------------------------------------------------------------------------------
 MDC_F = ["crypto::sym::decryptor::StreamDecryptorInner::<Aes128,&[u8]>::{finalize_data,fill_inner,read}", "sha1::Sha1::{update,finalize} (compression stubbed)"]
+V2_F = ["crypto::aead::decryptor::StreamDecryptor::<&[u8]>::{decrypt,decrypt_last,fill_inner,read,out_buffer_remaining}", "util::fill_buffer_bytes"]
 PROPS["C03"] = {
-    "inject": [("src/crypto/sym/decryptor.rs", "c03_mdc")],
+    "inject": [("src/crypto/sym/decryptor.rs", "c03_mdc"), ("src/crypto/aead/decryptor.rs", "c03_aead")],
     "mem_gb": 14,
-    "level_text": "Bounded model checking of the last step of the real SEIPDv1 stream decryptor: from the state 'all ciphertext read and decrypted' "
-                  "(built by struct literal) with 22 arbitrary trailing octets, the solver shows finalize_data accepts exactly D3 14 || digest, "
-                  "that a refusal leaves the reader in its error state, and that every read from the error state fails.",
-    "level_note": "NARROW: covers only the MDC decision and the stickiness of the error state of sym::StreamDecryptorInner (instantiation Aes128 over &[u8], "
-                  "check-first and streaming modes, 2 plaintext octets). SHA-1 compression is a no-op, so the digest is a constant: that the digest covers "
-                  "prefix and plaintext, truncation/extension at other offsets, the CheckFirst buffering, and everything about SEIPDv2 (aead::StreamDecryptor: "
-                  "BytesMut split_to/unsplit state machine, no verdict even on a 33-octet stream) are NOT covered.",
-    "bounds": "2 plaintext octets + 22 symbolic MDC octets; consumer buffer 0..4 for the error-state reads",
-    "outside": "SEIPDv2 entirely; data-dependence of the digest; fill_data (reading, buffering, size cap); message-level trailing-data check",
+    "level_text": "Bounded model checking of the decision steps of the real stream decryptors, each from a state built by struct literal. SEIPDv1: with 22 "
+                  "arbitrary trailing octets finalize_data accepts exactly D3 14 || digest, a refusal leaves the reader in its error state and every read from "
+                  "it fails. SEIPDv2 (model AEAD): decrypt() accepts a chunk iff its tag was made for the decryptor's current chunk index and then accounts its "
+                  "octets and advances nonce/index; decrypt_last() accepts a final tag iff it was made for exactly the chunk count and total octet count seen "
+                  "(all four u64 symbolic); a tail shorter than a tag is an error.",
+    "level_note": "NARROW, single steps only. SEIPDv1: MDC decision and stickiness of the error state of sym::StreamDecryptorInner (Aes128 over &[u8], check-first "
+                  "and streaming, 2 plaintext octets); SHA-1 compression is a no-op so the digest is a constant - that it covers prefix and plaintext, and the "
+                  "CheckFirst buffering in fill_data, are not covered. SEIPDv2: chunk and final-tag decisions of aead::StreamDecryptor (AES128/GCM labels, 2-octet "
+                  "chunk, AEAD = model whose tag exposes nonce index and AD; expected tags are produced through the same primitive so replays use real AES-GCM) "
+                  "and tails of 0/1/15 octets; the composition of the steps by fill_inner over a whole container (buffer refills, several chunks) timed out even "
+                  "for one chunk and is not covered, nor are header-field changes (they enter through HKDF) or the non-sticky state after a failed final tag.",
+    "bounds": "v1: 2 plaintext octets + 22 symbolic MDC octets, consumer buffer 0..4; v2: chunk of 2 octets, chunk index / octet count / tag provenance full u64",
+    "outside": "whole-container reads (refills, multiple chunks); data-dependence of the v1 digest; fill_data; header fields; GnuPG AEAD mode; message-level trailing-data check",
     "assumptions": [FMT_STUBS, "sha1::compress::compress is a no-op (digest = SHA-1 initial state); AES-128 key schedule real on a fixed key; state constructed directly, "
-                    "not reached through fill_data"],
+                    "not reached through fill_data",
+                    "c03_seipdv2_*: AeadAlgorithm::{encrypt,decrypt}_in_place replaced by a model AEAD (16-octet tag = be64(nonce index) || low 8 AD octets ^ AD length; "
+                    "decrypt checks and strips it); states constructed directly"],
     "harnesses": [
+        H("c03_seipdv2_final_tag_decision", "c03_aead", "quick", 600, "decrypt_last on a final tag made for (chunk count kt, octets wt) while the decryptor has seen (k, w), all symbolic u64: Ok iff kt = k and wt = w", V2_F, "4 symbolic u64"),
+        H("c03_seipdv2_chunk_decision", "c03_aead", "quick", 600, "decrypt() on a 2-octet chunk whose tag was made for index kt while the decryptor is at k: Ok iff kt = k; then written += 2, index + 1, nonce = IV || be64(k+1), exactly 2 plaintext octets exposed", V2_F, "3 symbolic u64 + 2 symbolic octets"),
+        H("c03_seipdv2_truncated_0", "c03_aead", "quick", 300, "read() when the source ends with 0 octets left and nothing buffered: error, never a clean empty end", V2_F, "tail 0 octets"),
+        H("c03_seipdv2_truncated_1", "c03_aead", "thorough", 300, "same with 1 arbitrary trailing octet", V2_F, "tail 1 symbolic octet"),
+        H("c03_seipdv2_truncated_15", "c03_aead", "quick", 300, "same with 15 arbitrary trailing octets (one short of a tag)", V2_F, "tail 15 symbolic octets"),
         H("c03_mdc_decision_streaming", "c03_mdc", "quick", 900, "streaming mode: finalize_data on 2 data octets + 22 arbitrary octets: Ok iff tag D3, length 14 and all 20 digest octets match; Ok => Done with exactly the data; Err => Error state", MDC_F, "22 symbolic MDC octets, 2 symbolic data octets"),
         H("c03_mdc_decision_check_first", "c03_mdc", "quick", 900, "same in check-first mode", MDC_F, "22 symbolic MDC octets, 2 symbolic data octets"),
         H("c03_error_state_is_sticky", "c03_mdc", "quick", 300, "read()/fill_inner() from the error state: always Err, state unchanged (no clean end of stream, no octet released)", MDC_F, "consumer buffer length symbolic 0..4"),
